@@ -41,6 +41,9 @@ func c12Oracle(sp *Spec, x *X, res *mcrt.Result) (string, string) {
 		for ei < len(x.Decors) && x.Decors[ei].Step <= f.Step {
 			e := x.Decors[ei]
 			ei++
+			if e.Got < 0 {
+				return "format-width", fmt.Sprintf("frame %d: decorator d%d.%d.%d returned width %d but the returned string is %d columns wide", fi, e.Bar, e.Side, e.Ord, e.Need, -e.Got)
+			}
 			c := syncColumn(sp, e.Bar, e.Side, e.Ord)
 			if c < 0 {
 				if e.Got != e.Need {
@@ -153,13 +156,13 @@ func c12Programs(tier string) []*Spec {
 			}
 		}
 	}
-	if tier == "thorough" {
-		// three bars, unequal column heights
+	{
+		// three bars, unequal column heights on both sides; wide (2-column) texts
 		for _, rf := range []string{"manual", "auto"} {
 			sp := &Spec{Name: "c12-uneven3", Refresh: rf, Q: -1}
 			sp.Bars = []BarSpec{
 				{Total: 2, Pre: []DecorSpec{syncD(1, 4), syncD(2)}, App: []DecorSpec{syncD(3)}},
-				{Total: 2, Pre: []DecorSpec{syncD(6, 1)}},
+				{Total: 2, Pre: []DecorSpec{syncD(6, 1)}, App: []DecorSpec{{Sync: true, Wide: true, Widths: []int{5, 2}}}},
 				{Total: 2, Pre: []DecorSpec{{Widths: []int{2}}, syncD(2, 2, 5)}, App: []DecorSpec{syncD(1), syncD(4)}},
 			}
 			sp.Main = []Op{{K: "add", B: 0}, {K: "add", B: 1}, {K: "add", B: 2}}
